@@ -3,7 +3,7 @@ From V.gen Require Consts.
 From V.common Require Import Wire Varint Protobuf.
 From V.C18 Require Model.
 From V.C03 Require Model.
-From V.C19 Require Import Model Proofs MsProofs.
+From V.C19 Require Import Formats Model Utf8Proofs Proofs MsProofs.
 Import ListNotations.
 Open Scope N_scope.
 From V.C19 Require Import Properties.
@@ -146,3 +146,16 @@ Check (C19_roundtrip_prefix :
 Check (C19_prefix_fields_in_range :
   forall b p, prefix_from_bytes b = Some p ->
   px_version p <= 1 /\ px_codec p < 2 ^ 64 /\ px_mh_type p < 2 ^ 64 /\ px_mh_len p < 256).
+Check (C19_utf8_sound_complete :
+  forall l, utf8_ok l = true <-> (exists cps, Forall scalar cps /\ l = flat_map utf8_encode cps)).
+Check (C19_alloc_multihash :
+  forall b code d rest, mh_read b = Some (code, d, rest) ->
+  exists hdr, b = hdr ++ d ++ rest /\ (2 <= length hdr <= 20)%nat /\ (length d <= 64)%nat).
+Check (C19_alloc_cid :
+  forall b c, cid_read b = Some c -> (length c <= length b /\ length c <= 104)%nat).
+Check (C19_maddr_total :
+  forall b, maddr_parse b <> OutOfFuel).
+Check (C19_maddr_fuel_irrelevant :
+  forall b fuel, (length b < fuel)%nat -> maddr_parse_f fuel b = maddr_parse_f (S (length b)) b).
+Check (C19_alloc_maddr :
+  forall b cs, maddr_parse b = Ok cs -> (comps_size cs <= length b)%nat).
